@@ -63,6 +63,16 @@ M = {
  "C16b-m1": ("C16", "Edwards serde visitors zero-pad short sequences", "serde feature, a self-describing format (JSON), fewer than 32 elements", {}),
  "C16b-m2": ("C16", "StaticSecret clamps on construction and deserialises through it", "serde + static_secrets features, comparison with the raw bytes", {}),
  "C11-own1": ("C11", "IFMA negate_lazy back to 16p (reverts the repair f2e2f15)", "nightly unstable_avx512 build on an avx512ifma CPU; product operands with all limbs next to 2^51 (tools/ifma_extreme.json)", {}),
+ "C05b-m1": ("C05", "vector vartime double-base starts the NAF scan at index 252", "AVX2 selected, legacy_compatibility, an unreduced scalar in [2^252, 2^253) (a malleated signature R, s+l)", {}),
+ "C05b-m2": ("C05", "serial precomputed Straus loses assert_eq!(dp, dynamic_nafs.len()): surplus dynamic scalars are ignored (the vector copy still panics)", "serial implementation selected; a call with more dynamic scalars than dynamic points (documented as an error)", {"C05": "MISSED by construction at first (no misuse calls in the request stream); caught after calls with inconsistent iterator lengths were added (outcome open, equal in every configuration)"}),
+ "C10b-m1": ("C10", "LookupTable::select loads the entry by a secret index (still branch-free)", "only the data-address sequence differs", {}),
+ "C10b-m2": ("C10", "sqrt_ratio_i returns early when v = 0", "a boundary secret: a point in the identity coset for compress, r_0 = sqrt(i*d) for the one-way map", {"C10": "MISSED at first: memcheck reported the branch (candidate) but no tested secret took it; caught after the algebraic boundary secrets were added (and an unreproduced taint report is now reported as well)"}),
+ "C12b-m1": ("C12", "one limb of u64 EIGHT_TORSION[5].T changed (T != XY/Z)", "an operation that reads T of that entry", {}),
+ "C12b-m2": ("C12", "one limb of u32 AFFINE_ODD_MULTIPLES_OF_BASEPOINT[63].y_minus_x changed", "32-bit build; a width-8 NAF digit +-127 of the basepoint scalar", {}),
+ "C13b-m1": ("C13", "every batch coefficient is the same value (vec![e; n] evaluates e once)", "batch feature; two corrupted entries whose errors cancel", {"C13": "caught by the families added on reading this change (cancelling +d / -d pairs; coefficients pairwise distinct)"}),
+ "C13b-m2": ("C13", "both Pippenger copies drop terms whose point is None instead of returning None", "a batch of at least 95 entries with an undecodable R and S = H(R,A,M) * a", {"C13": "caught by the crafted undecodable-R family added on reading this change; C04's optional_multiscalar_mul with a None at n = 190 sees it too"}),
+ "C17b-m1": ("C17", "CofactorGroup::is_torsion_free for EdwardsPoint tests X = 0 and T = 0 (the 2-torsion point passes)", "group feature; a point with a 2-torsion component", {}),
+ "C17b-m2": ("C17", "PrimeField::from_repr_vartime reduces before its canonicity check", "group feature; a non-canonical encoding with the top bit clear (l, l+1 ...)", {}),
  "C10-own1": ("C10", "LookupTable::select reads the entry by direct index (own seeded change from the design's appendix, not from a sub-agent)", "any secret digit", {"C10": "caught (lock-step traces of ed.mul_base diverge)"}),
 }
 # measured results: seeded/RESULTS.log (appended by tools/run_seeded.sh); the latest line per (change, check, tier) counts
@@ -78,7 +88,7 @@ if os.path.exists(RL):
     for (sid, chk, tier), (rc, first, commit) in sorted(latest.items()):
         txt = {"0": "not caught", "1": "caught", "2": "tool error"}.get(rc, "rc=" + rc) + " in the %s tier" % tier + (" (%s)" % first if first and rc == "1" else "") + " [machinery %s]" % commit
         d = EXTRA.setdefault(sid, {})
-        if chk in d and "caught in the quick" in d[chk] and tier == "thorough":
+        if chk in d and d[chk].startswith("caught in the quick") and tier == "thorough":
             continue
         d[chk] = (d[chk] + "; " if chk in d else "") + txt
 rows = []
